@@ -259,7 +259,9 @@ PROPS = {
                 "fed through Message::is_answer + XfrResponseInterpreter + ZoneUpdater into a receiving zone (empty, old version, unrelated content); (c) one "
                 "re-packaging of the canonical AXFR / IXFR / AXFR-in-reply-to-IXFR record sequence (all-in-one, one RR per message, random splits, question "
                 "repeated or not, compressed or not); (d) one fault on such a stream (drop/duplicate/reorder/truncate message, QR/opcode/rcode/TC/counts, "
-                "wrong question name/type/class, missing question, missing/mismatched first or final SOA, missing inner IXFR SOA, record outside the zone). "
+                "wrong question name/type/class, missing question, missing/mismatched first or final SOA, missing inner IXFR SOA, record outside the zone); (e) one transfer served from a zone that moves on while the "
+                "transfer is prepared: a store layered over the in-memory one commits the next version just in front of the sender's first, second, third or fourth read(), and what is "
+                "sent must be one published version, SOA and records alike. "
                 "The receiving zone's walk() is sampled after every applied update: every content readers see must be the previous version or a complete "
                 "version of the transfer; accepted transfers must leave exactly the content the stream denotes; streams the RFCs make invalid must not be "
                 "accepted; no panic; distinct = (kind, packaging class / fault kind, accepted?, update count class, versions)",
